@@ -1584,7 +1584,7 @@ func (e *CoreExtension) filterSlice(value interface{}, args ...interface{}) (int
 			// No length given: slice to the end
 		} else if length >= 0 {
 			end = start + length
-			if end > runeCount {
+			if end > runeCount || end < start { // the second test catches integer overflow
 				end = runeCount
 			}
 		} else if length < 0 {
@@ -1618,7 +1618,7 @@ func (e *CoreExtension) filterSlice(value interface{}, args ...interface{}) (int
 			// No length given: slice to the end
 		} else if length >= 0 {
 			end = start + length
-			if end > count {
+			if end > count || end < start { // the second test catches integer overflow
 				end = count
 			}
 		} else if length < 0 {
@@ -1659,7 +1659,7 @@ func (e *CoreExtension) filterSlice(value interface{}, args ...interface{}) (int
 			// No length given: slice to the end
 		} else if length >= 0 {
 			end = start + length
-			if end > runeCount {
+			if end > runeCount || end < start { // the second test catches integer overflow
 				end = runeCount
 			}
 		} else if length < 0 {
@@ -1693,7 +1693,7 @@ func (e *CoreExtension) filterSlice(value interface{}, args ...interface{}) (int
 			// No length given: slice to the end
 		} else if length >= 0 {
 			end = start + length
-			if end > count {
+			if end > count || end < start { // the second test catches integer overflow
 				end = count
 			}
 		} else if length < 0 {
